@@ -1,5 +1,5 @@
 """C13 every message serialises: valid JSON, framed protobuf, agreeing values."""
-import random, tempfile, subprocess
+import random, tempfile, subprocess, json
 from pipefam import *
 
 GEN = 'C13'
@@ -134,6 +134,48 @@ def pb_masked(m):
     return [(n, w, v) for n, w, v in f if n != 110 and not (sf and n in (111, 112))]
 
 
+def proto_fields(path, msg):
+    """number -> (type incl. 'repeated', name) of a message of a .proto file"""
+    import re
+    try:
+        src = open(path).read()
+    except OSError:
+        return None
+    m = re.search(r'message ' + msg + r' \{(.*?)\n\}', src, re.S)
+    if not m:
+        return None
+    out = {}
+    for rep, typ, name, num in re.findall(r'^\s*(repeated\s+)?([\w.]+)\s+(\w+)\s*=\s*(\d+)\s*;', m.group(1), re.M):
+        out[int(num)] = (('repeated ' if rep else '') + typ, name)
+    return out
+
+
+def schema_conflict_38(case):
+    return case.get('conflict_number') == 38 and case.get('collector') == ['uint32', 'ip_flags'] and case.get('consumer') == ['uint64', 'time_flow_start']
+
+
+MATCHERS = {'enricher-schema-field-38': schema_conflict_38}
+
+
+def schema_part(chk):
+    """the schema the shipped consumer decodes with (cmd/enricher/pb/flowext.proto) against the schema the collector writes
+    (pb/flow.proto): a field number that both declare must mean the same thing (same name, same type) -- otherwise the
+    consumer reports one column as another.  Both files are re-read from the repository on every run."""
+    a = proto_fields(os.path.join(REPO, 'pb', 'flow.proto'), 'FlowMessage')
+    b = proto_fields(os.path.join(REPO, 'cmd', 'enricher', 'pb', 'flowext.proto'), 'FlowMessageExt')
+    if not a or not b:
+        chk.notes.append('schema comparison skipped: a .proto file was not found')
+        return {}
+    conflicts = {n: (a[n], b[n]) for n in a if n in b and a[n] != b[n]}
+    chk.count('field numbers declared by both schemas', len([n for n in a if n in b]))
+    chk.evals += len([n for n in a if n in b])
+    for n, (x, y) in sorted(conflicts.items()):
+        chk.record('scopeA-schema', dict(concrete=True, conflict_number=n, collector=list(x), consumer=list(y),
+                   input='pb/flow.proto field %d = %s %s; cmd/enricher/pb/flowext.proto field %d = %s %s' % (n, x[0], x[1], n, y[0], y[1]),
+                   what='the consumer cmd/enricher decodes a field number with another meaning than the collector writes it with'), MATCHERS)
+    return conflicts
+
+
 def binary_part(chk, rng):
     """THE SHIPPED BINARIES: cmd/goflow2 (-format bin, file transport, no separator) run on generated histories writes a
     protodelim stream whose frames are, field for field (wall-clock fields aside), frame(pb_encode m) of the model; the
@@ -146,6 +188,7 @@ def binary_part(chk, rng):
             chk.record('binary', dict(concrete=False, what='%s does not build: %s' % (target, p.stdout[-300:])), {})
             return
     hists = [a.split(' ', 3)[3] for a, _ in model_gen(GEN, 0, chk.seed + 9, 0, dict(quick=6, thorough=60)[chk.tier])]
+    conflicts = schema_part(chk)
     nframes = 0
     try:
         for _ in range(dict(quick=2, thorough=20)[chk.tier]):
@@ -188,6 +231,29 @@ def binary_part(chk, rng):
             same = p.returncode == 0 and g2 is not None and len(g2) == len(got)
             if same:
                 same = [sorted(pb_fields(a), key=lambda t: t[0]) for a in g2] == [sorted(pb_fields(a), key=lambda t: t[0]) for a in got]
+            # the consumer's JSON: a column the two schemas number differently shows up under the wrong name
+            for n, (x, y) in sorted(conflicts.items()):
+                idx = [i for i, fr in enumerate(got) if any(fn == n and v for fn, w, v in pb_fields(fr))]
+                if not idx:
+                    continue
+                outj = tempfile.mktemp(prefix='enrj', dir='/root/scratch')
+                subprocess.run([enr, '-format', 'json', '-transport', 'file', '-transport.file', outj, '-loglevel', 'error'],
+                               input=raw, stdout=subprocess.PIPE, stderr=subprocess.PIPE, timeout=120)
+                try:
+                    jl = open(outj).read().split('\n')
+                    os.remove(outj)
+                except OSError:
+                    jl = []
+                for i in idx[:3]:
+                    v = [v for fn, w, v in pb_fields(got[i]) if fn == n][0]
+                    try:
+                        shown = json.loads(jl[i]).get(y[1])
+                    except Exception:
+                        shown = None
+                    if shown == v:
+                        chk.record('scopeA-schema', dict(concrete=True, conflict_number=n, collector=list(x), consumer=list(y),
+                                   input=line[:20000], message_index=i, impl='enricher -format json: "%s":%s' % (y[1], shown),
+                                   what='cmd/enricher reports the collector\'s %s (%d) as %s' % (x[1], v, y[1])), MATCHERS)
             if not same:
                 chk.record('scopeA-enricher', dict(concrete=True, input=line[:60000], exit_status=p.returncode,
                            messages_in=len(got), messages_out=None if g2 is None else len(g2),
